@@ -194,3 +194,63 @@ package core
 //@   loop 1: invariant counted: calls_TransactionHash == old(calls_TransactionHash) + rangeindex + 1
 //@   ensures only_old_blocks_skip: result == nil && len(txs) > 0 && calls_TransactionHash == old(calls_TransactionHash) ==> verLess(blockVer(protocolVersion), verOf("0.11.0"))
 //@   ensures all_recomputed: result == nil && !verLess(blockVer(protocolVersion), verOf("0.11.0")) ==> calls_TransactionHash == old(calls_TransactionHash) + len(txs)
+
+// ---- the running event filter persists through the writer it is handed (C05, C04) -----------------
+// insert / onReorg are given the writer of the surrounding transaction (the block's batch). The
+// window that a block closes is written, and the window that a revert re-opens is deleted, through
+// THAT writer and nothing else - so that the persisted windows commit or drop with the block.
+// The in-memory part (f.inner, f.next) is the subject of known finding F5a, not of this contract.
+//@ extern func sync.(*RWMutex).Lock
+//@ extern func sync.(*RWMutex).Unlock
+//@ func (*RunningEventFilter).ensureInit
+//@   trusted
+//@   modifies f.inner, f.next
+//@   ensures result == nil ==> f.inner != nil
+//@ func (*AggregatedBloomFilter).Insert
+//@   trusted
+//@ func (*AggregatedBloomFilter).clear
+//@   trusted
+//@ func NewAggregatedFilter
+//@   trusted
+//@ func WriteAggregatedBloomFilter
+//@   trusted
+//@   logged
+//@ func DeleteAggregatedBloomFilter
+//@   trusted
+//@   logged
+//@ func GetAggregatedBloomFilter
+//@   trusted
+//@ func (*RunningEventFilter).insert
+//@   props C05
+//@   arith int
+//@   nosafe
+//@   requires f != nil
+//@   modifies *
+//@   assigns calls_WriteAggregatedBloomFilter, arg_WriteAggregatedBloomFilter_w, arg_WriteAggregatedBloomFilter_filter
+//@   callsite WriteAggregatedBloomFilter@*: through_the_writer: $0 == writer
+//@   ensures at_most_one_window: calls_WriteAggregatedBloomFilter == old(calls_WriteAggregatedBloomFilter) || calls_WriteAggregatedBloomFilter == old(calls_WriteAggregatedBloomFilter) + 1
+//@   ensures nothing_deleted: calls_DeleteAggregatedBloomFilter == old(calls_DeleteAggregatedBloomFilter)
+//@ func (*RunningEventFilter).onReorg
+//@   props C05, C04
+//@   arith int
+//@   nosafe
+//@   requires f != nil
+//@   modifies *
+//@   assigns calls_DeleteAggregatedBloomFilter, arg_DeleteAggregatedBloomFilter_w, arg_DeleteAggregatedBloomFilter_fromBlock, arg_DeleteAggregatedBloomFilter_toBlock
+//@   callsite DeleteAggregatedBloomFilter@*: through_the_writer: $0 == writer
+//@   ensures at_most_one_window: calls_DeleteAggregatedBloomFilter == old(calls_DeleteAggregatedBloomFilter) || calls_DeleteAggregatedBloomFilter == old(calls_DeleteAggregatedBloomFilter) + 1
+//@   ensures nothing_written: calls_WriteAggregatedBloomFilter == old(calls_WriteAggregatedBloomFilter)
+//@ func (*RunningEventFilter).InsertWithBatch
+//@   props C05
+//@   arith int
+//@   requires f != nil
+//@   modifies *
+//@   assigns calls_WriteAggregatedBloomFilter, arg_WriteAggregatedBloomFilter_w, arg_WriteAggregatedBloomFilter_filter
+//@   callsite insert@*: with_the_batch: $1 == batch && $2 == bloom && $3 == blockNumber
+//@ func (*RunningEventFilter).OnReorgWithBatch
+//@   props C05, C04
+//@   arith int
+//@   requires f != nil
+//@   modifies *
+//@   assigns calls_DeleteAggregatedBloomFilter, arg_DeleteAggregatedBloomFilter_w, arg_DeleteAggregatedBloomFilter_fromBlock, arg_DeleteAggregatedBloomFilter_toBlock
+//@   callsite onReorg@*: with_the_batch: $1 == batch
